@@ -228,7 +228,7 @@ func (q *modelQuery) goLiteral(term string, t types.Type) (string, bool) {
 		return typeStr(t, q.w.prog.Pkg) + "{" + strings.Join(es, ", ") + "}", true
 	case *types.Pointer:
 		if smt.isHeapPtr(t) {
-			return "", false
+			return q.heapObject(term, u)
 		}
 		s, ok := q.goLiteral(term, u.Elem())
 		if !ok {
@@ -237,6 +237,61 @@ func (q *modelQuery) goLiteral(term string, t types.Type) (string, bool) {
 		return fmt.Sprintf("func() %s { v := %s; return &v }()", typeStr(t, q.w.prog.Pkg), s), true
 	}
 	return "", false
+}
+
+// heapObject rebuilds the object a heap reference denotes in the model's initial heap: one Go
+// variable per (type, reference), fields read from the initial field arrays that occur in the
+// obligation (fields the obligation never mentions keep their zero value).  Sharing and cycles
+// are preserved because a reference is rendered once.
+func (q *modelQuery) heapObject(term string, pt *types.Pointer) (string, bool) {
+	smt := q.w.smt
+	v, ok := q.value(term)
+	if !ok {
+		return "", false
+	}
+	r, ok := sxRat(v)
+	if !ok || !r.IsInt() {
+		return "", false
+	}
+	if r.Sign() == 0 {
+		return "nil", true
+	}
+	named, ok := types.Unalias(smt.resolve(pt.Elem())).(*types.Named)
+	if !ok {
+		return "", false
+	}
+	tn := named.Origin().Obj().Name()
+	key := tn + "#" + r.Num().String()
+	if q.refVar == nil {
+		q.refVar = map[string]string{}
+	}
+	if name, ok := q.refVar[key]; ok {
+		return name, true
+	}
+	if len(q.refVar) >= 24 {
+		return "", false
+	}
+	if q.vcText == "" {
+		q.vcText = q.vc.smtText(q.prelude, "")
+	}
+	name := fmt.Sprintf("h%d", len(q.refVar)+1)
+	q.refVar[key] = name
+	q.heapPre = append(q.heapPre, fmt.Sprintf("%s := &%s{}", name, typeStr(pt.Elem(), q.w.prog.Pkg)))
+	stt := named.Underlying().(*types.Struct)
+	for i := 0; i < stt.NumFields(); i++ {
+		f := stt.Field(i)
+		arr := "H0_" + sanitize(tn+"."+f.Name())
+		if !strings.Contains(q.vcText, "(declare-const "+arr+" ") {
+			continue
+		}
+		lit, ok := q.goLiteral(fmt.Sprintf("(select %s %s)", arr, r.Num().String()), f.Type())
+		if !ok {
+			q.inexact = true
+			continue
+		}
+		q.heapPre = append(q.heapPre, fmt.Sprintf("%s.%s = %s", name, f.Name(), lit))
+	}
+	return name, true
 }
 
 // modelQuery evaluates terms in the model of a sat obligation by re-running the solver
@@ -249,6 +304,9 @@ type modelQuery struct {
 	cache   map[string]*sx
 	inexact bool
 	solver  string
+	refVar  map[string]string // (type#ref) -> Go variable of the rebuilt heap object
+	heapPre []string          // statements that rebuild the heap objects
+	vcText  string
 	calls   int
 }
 
@@ -531,9 +589,19 @@ func buildReplay(w *World, vc *VC, prelude, dir string, testName string) (*overl
 		return nil, args, "model values could not be rendered as Go inputs (heap references, out-of-range or too large values)"
 	}
 	var b strings.Builder
+	for _, h := range q.heapPre {
+		fmt.Fprintf(&b, "\t\t%s\n", h)
+	}
+	for name := range q.refVar {
+		_ = name
+	}
+	for _, h := range q.refVar {
+		fmt.Fprintf(&b, "\t\t_ = %s\n", h)
+	}
 	for _, a := range args {
 		fmt.Fprintf(&b, "\t\ta_%s := %s\n", a.Name, a.Go)
 	}
+	heapArgs := len(q.refVar) > 0
 	call := fd.Name.Name + "(" + strings.Join(callArgs, ", ") + ")"
 	if recv != "" {
 		call = "a_" + recv + "." + call
@@ -561,6 +629,10 @@ func buildReplay(w *World, vc *VC, prelude, dir string, testName string) (*overl
 	}
 	if !strings.HasPrefix(vc.Kind, "ensures") && !strings.HasPrefix(vc.Kind, "expect") {
 		return nil, args, "no replay form for obligation kind " + vc.Kind
+	}
+	if heapArgs && strings.Contains(vc.ClauseText, "old(") {
+		// the executable clause reads the heap after the call; old() over heap objects cannot be evaluated
+		return nil, args, "clause refers to the pre-call heap (old): the rebuilt input is recorded, the clause is not re-evaluated"
 	}
 	// find the clause function
 	var cl *Clause
